@@ -31,10 +31,26 @@ pub enum Role {
     Copy { buf: u32 },
     Tag { prefix: String },
     Head { k: u32, buf: u32 },
-    /// read `k` lines with `read`, print them tagged, then copy the rest
-    ReadThenCopy { k: u32 },
+    /// consume input with a sequence of `read` variants, print what each got, copy the rest
+    ReadThenCopy { ops: Vec<ReadOp> },
     Exit { status: u8, drain: bool },
     Count,
+}
+
+#[derive(Clone, Debug, Serialize, Deserialize, PartialEq)]
+pub enum ReadOp {
+    /// `IFS= read -r v`
+    Line,
+    /// `read v` (no whitespace or backslashes in the data, so same result)
+    PlainLine,
+    /// `IFS= read -r -n N v`: at most N characters, stops after a newline
+    NChars(u32),
+    /// `IFS= read -r -N N v` with N not beyond the current line
+    NExact(u32),
+    /// `IFS= read -r -d x v`: up to and including the first 'x'
+    DelimX,
+    /// `read -r a b` (two variables; data has no blanks, so b is empty)
+    TwoVars,
 }
 
 #[derive(Clone, Debug, Serialize, Deserialize, PartialEq)]
@@ -59,6 +75,8 @@ pub struct Case {
     pub stages: Vec<Stage>,
     pub wrap: Wrap,
     pub pipefail: bool,
+    #[serde(default)]
+    pub lastpipe: bool,
     pub front_end: FrontEnd,
     pub cfg: SimConfig,
 }
@@ -82,10 +100,19 @@ fn render_inner(st: &Stage, idx: usize) -> String {
         (Role::Head { k, .. }, Body::Loop) => format!(
             "n{idx}=0; while IFS= read -r {v}; do echo \"${v}\"; n{idx}=$((n{idx}+1)); if [ $n{idx} -ge {k} ]; then break; fi; done"
         ),
-        (Role::ReadThenCopy { k }, _) => {
+        (Role::ReadThenCopy { ops }, _) => {
             let mut s = String::new();
-            for j in 0..*k {
-                s.push_str(&format!("IFS= read -r r{idx}_{j}; echo \"R:$r{idx}_{j}\"; "));
+            for (j, op) in ops.iter().enumerate() {
+                let var = format!("r{idx}_{j}");
+                let cmd = match op {
+                    ReadOp::Line => format!("IFS= read -r {var}"),
+                    ReadOp::PlainLine => format!("read {var}"),
+                    ReadOp::NChars(n) => format!("IFS= read -r -n {n} {var}"),
+                    ReadOp::NExact(n) => format!("IFS= read -r -N {n} {var}"),
+                    ReadOp::DelimX => format!("IFS= read -r -d x {var}"),
+                    ReadOp::TwoVars => format!("read -r {var} {var}b"),
+                };
+                s.push_str(&format!("{cmd}; echo \"R:${var}\"; "));
             }
             s.push_str("simcat 64");
             s
@@ -145,6 +172,9 @@ pub fn render(case: &Case) -> String {
     if case.pipefail {
         s.push_str("set -o pipefail\n");
     }
+    if case.lastpipe {
+        s.push_str("shopt -s lastpipe\n");
+    }
     s.push_str(&defs);
     match &case.wrap {
         Wrap::None => {
@@ -195,6 +225,8 @@ pub fn model(case: &Case) -> Model {
     // does stage i stop reading before its input ends?
     let mut early: Vec<bool> = vec![];
     let mut endless_input = false;
+    #[allow(unused_assignments)]
+    let mut raw_tail = false;
     for st in &case.stages {
         let incoming = lines.len();
         let mut st_early = false;
@@ -228,13 +260,51 @@ pub fn model(case: &Case) -> Model {
                 }
                 allowed.push(vec![0]);
             }
-            Role::ReadThenCopy { k } => {
-                let mut out = vec![];
-                for j in 0..(*k as usize) {
-                    out.push(format!("R:{}", lines.get(j).cloned().unwrap_or_default()));
+            Role::ReadThenCopy { ops } => {
+                // operate on the byte stream
+                let mut data: Vec<u8> = vec![];
+                for l in &lines {
+                    data.extend_from_slice(l.as_bytes());
+                    data.push(b'\n');
                 }
-                out.extend(lines.iter().skip(*k as usize).cloned());
-                lines = out;
+                let mut pos = 0usize;
+                let mut out: Vec<u8> = vec![];
+                for op in ops {
+                    let rest = &data[pos..];
+                    let (val, used): (Vec<u8>, usize) = match op {
+                        ReadOp::Line | ReadOp::PlainLine | ReadOp::TwoVars => match rest.iter().position(|b| *b == b'\n') {
+                            Some(i) => (rest[..i].to_vec(), i + 1),
+                            None => (rest.to_vec(), rest.len()),
+                        },
+                        ReadOp::NChars(n) => {
+                            let n = *n as usize;
+                            match rest.iter().take(n).position(|b| *b == b'\n') {
+                                Some(i) => (rest[..i].to_vec(), i + 1),
+                                None => {
+                                    let k = n.min(rest.len());
+                                    (rest[..k].to_vec(), k)
+                                }
+                            }
+                        }
+                        ReadOp::NExact(n) => {
+                            let k = (*n as usize).min(rest.len());
+                            (rest[..k].to_vec(), k)
+                        }
+                        ReadOp::DelimX => match rest.iter().position(|b| *b == b'x') {
+                            Some(i) => (rest[..i].to_vec(), i + 1),
+                            None => (rest.to_vec(), rest.len()),
+                        },
+                    };
+                    pos += used;
+                    out.extend_from_slice(b"R:");
+                    out.extend_from_slice(&val);
+                    out.push(b'\n');
+                }
+                out.extend_from_slice(&data[pos..]);
+                // back to lines (the stream always ends with a newline here unless empty)
+                let text = String::from_utf8_lossy(&out).to_string();
+                lines = text.split_terminator('\n').map(String::from).collect();
+                raw_tail = if !out.is_empty() && out.last() != Some(&b'\n') { true } else { false };
                 allowed.push(vec![0]);
             }
             Role::Exit { status, drain } => {
@@ -264,6 +334,9 @@ pub fn model(case: &Case) -> Model {
     for l in &lines {
         output.extend_from_slice(l.as_bytes());
         output.push(b'\n');
+    }
+    if raw_tail {
+        output.pop();
     }
     Model { output, allowed, has_early_exit, forever }
 }
@@ -389,7 +462,21 @@ impl C11 {
                         Role::Head { k: rng.range(1, (n.max(2) / 2).max(1) as u64) as u32, buf: *rng.pick(&[1u32, 8, 64, 512]) }
                     }
                 }
-                "shared-read" if last || rng.below(2) == 0 => Role::ReadThenCopy { k: rng.range(1, 3) as u32 },
+                "shared-read" if last || rng.below(2) == 0 => {
+                    let line_len = 2 + pad; // tag + at least one digit + pad
+                    let nops = rng.range(1, 3);
+                    let ops = (0..nops)
+                        .map(|_| match rng.below(9) {
+                            0..=2 => ReadOp::Line,
+                            3 => ReadOp::PlainLine,
+                            4..=5 => ReadOp::NChars(*rng.pick(&[1u32, 2, 5, 9, 40, 200])),
+                            6 => ReadOp::NExact(rng.range(1, line_len.max(1) as u64) as u32),
+                            7 => ReadOp::DelimX,
+                            _ => ReadOp::TwoVars,
+                        })
+                        .collect();
+                    Role::ReadThenCopy { ops }
+                }
                 _ => match rng.below(10) {
                     0..=3 => Role::Copy { buf: *rng.pick(&[1u32, 3, 16, 64, 512, 4096]) },
                     4..=5 => Role::Tag { prefix: ["T", "U:", "zz"][rng.below(3) as usize].to_string() },
@@ -433,7 +520,8 @@ impl C11 {
         cfg.short_read_pm = if rng.below(4) == 0 { *rng.pick(&[50u16, 300]) } else { 0 };
         let bytes = model_payload(&stages).max(64);
         cfg.budget = if forever { 30_000 } else { 2_000 + bytes * (nstages as u64) * 8 };
-        Case { class, stages, wrap, pipefail: rng.below(3) == 0, front_end, cfg }
+        let lastpipe = rng.below(5) == 0;
+        Case { class, stages, wrap, pipefail: rng.below(3) == 0, lastpipe, front_end, cfg }
     }
 }
 
@@ -664,6 +752,24 @@ impl Check for C11 {
             let mut d = c.clone();
             d.pipefail = false;
             out.push(d);
+        }
+        if c.lastpipe {
+            let mut d = c.clone();
+            d.lastpipe = false;
+            out.push(d);
+        }
+        for i in 0..c.stages.len() {
+            if let Role::ReadThenCopy { ops } = &c.stages[i].role {
+                for j in 0..ops.len() {
+                    if ops.len() > 1 {
+                        let mut d = c.clone();
+                        let mut o = ops.clone();
+                        o.remove(j);
+                        d.stages[i].role = Role::ReadThenCopy { ops: o };
+                        out.push(d);
+                    }
+                }
+            }
         }
         if c.front_end != FrontEnd::DashC {
             let mut d = c.clone();
